@@ -1,3 +1,4 @@
+CONSTANT IndexerPeriod = "next"
 SPECIFICATION Spec
 INVARIANT Report
 CHECK_DEADLOCK FALSE
